@@ -31,6 +31,14 @@ func digestRun(cfg *propCfg, b *build, tier string, seed uint64, procs, maxcases
 // process or a new one - always gives the same bytes"; a difference only in the schedule
 // hash means the simulator is not deterministic (infrastructure, exit 2).
 func crossProcessDeterminism(cfg *propCfg, b *build, tier string, seed uint64, maxcases int) (*violation, map[string]int64) {
+	v, st, _ := crossProcessDeterminismOut(cfg, b, tier, seed, maxcases)
+	return v, st
+}
+
+// crossProcessDeterminismOut also hands back the shard record of a process that crashed (race
+// report, panic in a library goroutine), so that the caller can attribute the crash to the
+// case its status file names instead of to "case 0".
+func crossProcessDeterminismOut(cfg *propCfg, b *build, tier string, seed uint64, maxcases int) (*violation, map[string]int64, *shardOut) {
 	procs := []int{1, 4, 16, 2}
 	res := make([]map[string][2]uint64, len(procs))
 	outs := make([]shardOut, len(procs))
@@ -47,7 +55,7 @@ func crossProcessDeterminism(cfg *propCfg, b *build, tier string, seed uint64, m
 	for i := range procs {
 		if res[i] == nil {
 			if v, ok := classifyCrash(cfg, outs[i]); ok {
-				return &v, stats
+				return &v, stats, &outs[i]
 			}
 			fmt.Fprintln(os.Stderr, outs[i].stderr)
 			infra("determinism pass: process with GOMAXPROCS=%d ended abnormally (exit %d)", procs[i], outs[i].exit)
@@ -74,14 +82,14 @@ func crossProcessDeterminism(cfg *propCfg, b *build, tier string, seed uint64, m
 			}
 			if o[0] != res[0][k][0] {
 				return &violation{Kind: "nondeterministic-output", Site: "cross-process",
-					Detail: fmt.Sprintf("case %s (seed %d) produced different library output in two fresh processes (GOMAXPROCS=%d vs %d) under the same schedule", k, seed, procs[0], procs[i])}, stats
+					Detail: fmt.Sprintf("case %s (seed %d) produced different library output in two fresh processes (GOMAXPROCS=%d vs %d) under the same schedule", k, seed, procs[0], procs[i])}, stats, nil
 			}
 		}
 	}
 	stats["schedule_hash_mismatch_across_gomaxprocs"] += 0
 	stats["determinism_cases_compared"] = int64(len(keys))
 	stats["determinism_processes"] = int64(len(procs))
-	return nil, stats
+	return nil, stats, nil
 }
 
 func selftest(args []string) int {
